@@ -151,6 +151,10 @@ def voronoi(x, centers):
     -------
     z vector of shape(n), the resulting assignment
     """
+    # squared distances are computed in floating point: integer data would
+    # wrap around in (x - centers[q]) ** 2
+    x = np.asarray(x, dtype=np.float64)
+    centers = np.asarray(centers, dtype=np.float64)
     if np.size(x) == x.shape[0]:
         x = np.reshape(x, (np.size(x), 1))
     if np.size(centers) == centers.shape[0]:
